@@ -157,20 +157,28 @@ def settle (c : Cfg) (yields : Raw → Bool) (s : Sys) : Sys :=
       settle c yields s1
 termination_by s.buf.length
 
-/-- the timer of the pending call that is due first up to `target` fires (the caller's timer wins a tie: it was armed
-    first).  Either way the frames skipped so far go back in front of the queue (`finally` of the three waits); the
-    protocol timer closes the connection (`except TimeoutError: await self.close()`), the caller's does not. -/
+/-- which timer of a pending call expires first: (absolute time, is it the caller's).  The caller's timer wins a tie:
+    it was armed first. -/
+def expiry : Option Nat → Option Nat → Option (Nat × Bool)
+  | some a, some ct => if ct ≤ a then some (ct, true) else some (a, false)
+  | some a, none => some (a, false)
+  | none, some ct => some (ct, true)
+  | none, none => none
+
+/-- the timer of the pending call that expires first fires if it is due up to `target`.  Either way the frames skipped
+    so far go back in front of the queue (`finally` of the three waits); the protocol timer closes the connection
+    (`except TimeoutError: await self.close()`) and surfaces as a connection error, the caller's timer does neither. -/
 def fire (s : Sys) (target : Nat) : Sys :=
   match s.client with
   | .idle => s
   | .waiting w sk proto caller =>
-    let byCaller (ct : Nat) : Sys := { s with now := ct, queue := requeueFront sk s.queue }.finish w .timeout
-    let byProto (a : Nat) : Sys := { s with now := a, queue := requeueFront sk s.queue, closed := true }.finish w .conn
-    match caller, proto with
-    | some ct, some a => if ct ≤ a ∧ ct ≤ target then byCaller ct else if a ≤ target then byProto a else s
-    | some ct, none => if ct ≤ target then byCaller ct else s
-    | none, some a => if a ≤ target then byProto a else s
-    | none, none => s
+    match expiry proto caller with
+    | none => s
+    | some (d, byCaller) =>
+      if d ≤ target then
+        { s with now := d, queue := requeueFront sk s.queue, closed := s.closed || !byCaller }.finish w
+          (if byCaller then .timeout else .conn)
+      else s
 
 inductive Op
   | feed (chunk : Bytes)
